@@ -121,7 +121,7 @@ def replay_schedule(job):
         reg.set_opt(options_for(oid), oid)
     probe = probemod.Probe(reg)
     T = probemod.traced_transpiler(probe)
-    sources = poolmod.Sources(os.path.join(job['scratch'], 'src'))
+    sources = poolmod.sources_for(os.path.join(root, 'src'))
     pool = ReplayPool(sources, reg, job.get('layout', 0), 5000)
     pool.define([tuple(p) for p in job['init_fns']])
     for p in job['init_fns']:
@@ -154,6 +154,7 @@ def replay_schedule(job):
                     unexpected.append((type(ex).__name__, repr(ex)))
                 del fn
                 probe.tls.last = None
+                probe.park_deferred()
         finally:
             ctl.worker_finished(tid)
 
